@@ -828,6 +828,23 @@ def run_region(ctx, case):
         reg = fixtures.cartesian_region(origins, dh)
         lons, lats = probes(dh, anchor, cells, mode)
         ref, ref_exc = observe(reg, lons, lats, stats)
+        # history before the region is serialised: the caller converted the arrays it was handed by origins()/midpoints() to the
+        # 0..360 convention in place, and emptied a dictionary it had taken earlier
+        for getter in ('origins', 'midpoints'):
+            try:
+                arr = getattr(reg, getter)()
+                if isinstance(arr, numpy.ndarray) and arr.size:
+                    arr += 360.0
+            except Exception:
+                pass
+        try:
+            d0 = reg.to_dict()
+            for v in list(d0.values()):
+                if isinstance(v, list):
+                    del v[:]
+            d0.clear()
+        except Exception:
+            pass
         ctx.states += 1
         if len(cells) >= 2:
             ctx.nontrivial += 1
